@@ -45,6 +45,11 @@ CHECKS = {
     technique="TLA+ spec RpycChannel (writer/reader over a fragmenting, stalling, failing byte stream; byte offsets, write splitting, header/body read loops) model-checked by TLC; every edge of the small-constant state graph dictated as transport decisions to the real Channel + SocketStream/PipeStream over fake sockets / fake os.read-write with state comparison; real-size transfers with random fragmentation whose I/O call logs are trace-validated by TLC",
     text="TLC exhausts all splits of every send and recv, transient timeouts/EAGAIN and a fault at every position for CHUNK=8/THRESHOLD=2 packets (single-write, multi-write, empty, compressed) for frame alignment, no over-read, prefix delivery and clean failure; the real code is driven through every such decision and compared (bytes moved, size of every I/O request, packets delivered, closed flags, exception class), and at real sizes (0..128001, around 3000 and 64000) the logged I/O calls must be a behaviour of the spec and the bytes received must equal the bytes sent",
     note="reliable in-order byte stream until failure; one writer and one reader per direction; zlib bodies compared after decompression"),
+ "C06": dict(
+    spec="RpycAttr", design="5/C06",
+    technique="TLA+ spec RpycAttr: decision table Decide (set of permitted outcomes per configuration x operation x name class x object shape, written from the statement) evaluated and exported by TLC with its meta-properties as ASSUMEs, plus a TLC-checked state machine of connection histories; all 10752 table cases, the hook/service/restricted-view cases and every history edge executed on real connections and compared with the table",
+    text="the complete finite decision space (2^5 switches x 3 prefixes x 7 name classes x 4 shapes x 4 operations) is decided by the specification and executed case by case against the real request handlers (directly and as real HANDLE_* requests with text, bytes and non-text names), observing which attribute was actually read/written/deleted/called and which exception the peer saw; histories of opening/closing default, classic and public connections are enumerated by TLC and replayed, re-probing every open connection and DEFAULT_CONFIG after each step",
+    note="names are instance attributes of plain objects; where the statement is silent (permitted plain name missing but twin present) both accesses are accepted; invalid-UTF-8 bytes names are not exercised"),
 }
 NA = {}
 
